@@ -165,6 +165,58 @@ Qed.
 Lemma sremove_NoDup s l : NoDup l -> NoDup (sremove s l).
 Proof. apply NoDup_filter. Qed.
 
+(* ---------------- removing the new vertex from a face ---------------- *)
+Lemma nat_remove_insert pt f : sorted f -> ~ In pt f -> nat_remove pt (nat_insert pt f) = f.
+Proof.
+  intros Hs Hn. apply sorted_ext; auto.
+  - apply nat_remove_sorted, nat_insert_sorted, Hs.
+  - intros x. rewrite nat_remove_In, nat_insert_In. split.
+    + intros [[->|Hx] Hne]; [congruence|exact Hx].
+    + intros Hx. split; [right; exact Hx|]. intros ->. contradiction.
+Qed.
+
+Lemma face_minus_vertex pt : forall s g, sorted s -> In g (drop_one s) -> In pt g ->
+  In (nat_remove pt g) (drop_one (nat_remove pt s)).
+Proof.
+  induction s as [|a l IH]; cbn [drop_one]; intros g Hs Hg Hp; [destruct Hg|].
+  pose proof (sorted_NoDup _ Hs) as Hnd. inversion Hnd as [|? ? Ha Hnd']; subst.
+  apply sorted_cons_inv in Hs as [Hsl Hf].
+  destruct Hg as [<-|Hg].
+  - (* the head was dropped *)
+    cbn [nat_remove]. destruct (Nat.eqb_spec pt a) as [->|Hne]; [contradiction|].
+    cbn [drop_one]. left; reflexivity.
+  - apply in_map_iff in Hg as [f [<- Hf']]. cbn [nat_remove].
+    destruct (Nat.eqb_spec pt a) as [->|Hne].
+    + assert (Haf : ~ In a f) by (intros Hc; apply Ha; eapply drop_one_incl; eauto).
+      rewrite !nat_remove_notin by assumption. exact Hf'.
+    + cbn [drop_one]. right. apply in_map. apply IH; auto.
+      destruct Hp as [Hp|Hp]; [congruence|exact Hp].
+Qed.
+
+Lemma NoDup_map_on {A B} (f : A -> B) : forall l, NoDup l ->
+  (forall x y, In x l -> In y l -> f x = f y -> x = y) -> NoDup (map f l).
+Proof.
+  induction l as [|a l IH]; intros Hn Hi; cbn [map]; [constructor|].
+  inversion Hn as [|? ? Ha Hn']; subst. constructor.
+  - intros Hc. apply in_map_iff in Hc as [y [Ey Hy]]. apply Ha.
+    rewrite (Hi a y); auto; [left; reflexivity|right; exact Hy].
+  - apply IH; auto. intros x y Hx Hy. apply Hi; right; assumption.
+Qed.
+
+Lemma cf_map_remove pt g : forall ss, (forall s, In s ss -> sorted s) -> In pt g ->
+  cf g ss <= cf (nat_remove pt g) (map (nat_remove pt) ss).
+Proof.
+  induction ss as [|s ss IH]; intros Hs Hp; [rewrite cf_nil; lia|]. cbn [map]. rewrite !cf_cons.
+  assert (H1 : count_face g (drop_one s) <= count_face (nat_remove pt g) (drop_one (nat_remove pt s))).
+  { destruct (In_dec_s g (drop_one s)) as [Hg|Hg].
+    - pose proof (@count_face_sorted g s (Hs s (or_introl eq_refl))).
+      pose proof (count_face_in _ _ (face_minus_vertex pt _ (Hs s (or_introl eq_refl)) Hg Hp)). lia.
+    - rewrite (count_face_notin _ _ Hg). lia. }
+  assert (H2 : cf g ss <= cf (nat_remove pt g) (map (nat_remove pt) ss)).
+  { apply IH; auto. intros s' Hs'. apply Hs. right; exact Hs'. }
+  lia.
+Qed.
+
 Section TriFacets.
   Variable P : Type.
   Variable d : nat.
@@ -320,6 +372,72 @@ Section TriFacets.
     fold A B. lia.
   Qed.
 
+  (* ---------------- Bowyer-Watson, facets at the new vertex ---------------- *)
+  (* when no simplex of the state handed to bowyer_watson contains [pt] (the
+     point lies inside the hull), a facet WITH [pt] is in at most as many
+     simplices afterwards as the ridge [g - pt] has faces of the cavity boundary
+     around it *)
+  Lemma bw_new_facets o pt U seed t2 bad newt :
+    Inv U -> WF U -> pt < nverts U -> (forall s, In s seed -> In s (simplices U)) ->
+    (forall s, In s (simplices U) -> ~ In pt s) ->
+    bowyer_watson d o pt U seed = (t2, bad, newt) ->
+    forall g, In pt g -> cf g (simplices t2) <= cf (nat_remove pt g) (hole_faces bad).
+  Proof.
+    intros HI HW Hpt Hseed Hold E g Hg. unfold bowyer_watson in E.
+    destruct (bw_loop d o (length (simplices U) + length seed + 1) U seed [] []) as [t1 bad1] eqn:El.
+    inversion E; subst t2 bad newt; clear E.
+    pose proof (@bw_loop_WF _ _ _ _ _ _ _ _ HW El) as HW1.
+    apply bw_loop_spec in El; auto. destruct El as [H1 [H2 [H3 [H4 [H5 H6]]]]].
+    assert (Hbad : forall s, In s bad1 -> In s (simplices U) /\ ~ In s (simplices t1)).
+    { intros s Hs. destruct (H5 _ Hs) as [[]|Hb]; auto. }
+    set (faces := filter (fun f => negb (nat_mem pt f)) (hole_faces bad1)) in *.
+    assert (Hfaces : forall f, In f faces -> ~ In pt f /\ sorted f /\ In f (hole_faces bad1)).
+    { intros f Hf. unfold faces in Hf. apply filter_In in Hf as [Hf Hn]. split; [|split; [|exact Hf]].
+      - intros Hc. apply nat_mem_In in Hc. rewrite Hc in Hn. discriminate.
+      - unfold hole_faces in Hf. apply filter_In in Hf as [Hf _]. unfold all_faces in Hf.
+        apply in_flat_map in Hf as [b [Hb Hfb]].
+        eapply drop_one_sorted; [|exact Hfb]. apply (wf_sorted HW). apply Hbad; exact Hb. }
+    assert (Hnews : forall x, In x (new_from_faces o pt faces) ->
+                     In pt x /\ sorted x /\ forall v, In v x -> v < nverts t1).
+    { intros x Hx. apply new_from_faces_In in Hx as [f [Hf ->]].
+      destruct (Hfaces _ Hf) as [Hnp [Hsf Hh]]. split; [|split].
+      - apply nat_insert_In. auto.
+      - apply nat_insert_sorted; exact Hsf.
+      - intros v Hv. unfold nverts. rewrite H2. fold (nverts U).
+        apply nat_insert_In in Hv as [->|Hv]; auto.
+        unfold hole_faces in Hh. apply filter_In in Hh as [Hh _]. unfold all_faces in Hh.
+        apply in_flat_map in Hh as [b [Hb Hfb]].
+        apply Hbad in Hb as [Hb _]. eapply (inv_range HI); eauto. eapply drop_one_incl; eauto. }
+    destruct (fold_add_simplex_spec (new_from_faces o pt faces) t1) as [G1 [G2 G3]]; auto.
+    { intros s v Hs Hv. apply Hnews in Hs as [_ [_ Hs]]. auto. }
+    set (t2 := fold_left (@add_simplex P) (new_from_faces o pt faces) t1) in *.
+    assert (HW2 : WF t2).
+    { apply fold_add_simplex_WF; auto. intros s Hs. apply Hnews in Hs. tauto. }
+    set (nopt := fun s : simplex => negb (nat_mem pt s)).
+    rewrite (cf_partition g nopt (simplices t2)).
+    set (A := filter nopt (simplices t2)). set (B := filter (fun s => negb (nopt s)) (simplices t2)).
+    assert (HA0 : cf g A = 0).
+    { apply cf_zero. intros s Hs Hgs. unfold A in Hs. apply filter_In in Hs as [_ Hn]. unfold nopt in Hn.
+      apply negb_true_iff in Hn. assert (Hc : nat_mem pt s = true); [|rewrite Hc in Hn; discriminate].
+      apply nat_mem_In. eapply drop_one_incl; eauto. }
+    assert (HB : forall s, In s B -> exists f, In f faces /\ s = nat_insert pt f).
+    { intros s Hs. unfold B in Hs. apply filter_In in Hs as [Hs Hn].
+      unfold nopt in Hn. apply negb_true_iff, negb_false_iff, nat_mem_In in Hn.
+      apply G3 in Hs as [Hs|Hs]; [exfalso; apply (Hold s); auto|].
+      apply new_from_faces_In in Hs. exact Hs. }
+    assert (HsB : forall s, In s B -> sorted s).
+    { intros s Hs. apply HB in Hs as [f [Hf ->]]. apply nat_insert_sorted. apply Hfaces; exact Hf. }
+    rewrite HA0. cbn [plus].
+    eapply Nat.le_trans; [apply (@cf_map_remove pt g B HsB Hg)|].
+    apply cf_incl.
+    - apply NoDup_map_on; [apply NoDup_filter, (wf_nodup HW2)|].
+      intros x y Hx Hy Exy. apply HB in Hx as [fx [Hfx ->]]. apply HB in Hy as [fy [Hfy ->]].
+      destruct (Hfaces _ Hfx) as [Nx [Sx _]]. destruct (Hfaces _ Hfy) as [Ny [Sy _]].
+      rewrite !nat_remove_insert in Exy by assumption. congruence.
+    - intros r Hr. apply in_map_iff in Hr as [s [<- Hs]]. apply HB in Hs as [f [Hf ->]].
+      destruct (Hfaces _ Hf) as [Nf [Sf Hh]]. rewrite nat_remove_insert by assumption. exact Hh.
+  Qed.
+
   (* ---------------- one insertion ---------------- *)
   Lemma WF_same_simplices t t' : simplices t' = simplices t -> WF t -> WF t'.
   Proof. intros E [H1 H2]. constructor; rewrite E; auto. Qed.
@@ -388,6 +506,44 @@ Section TriFacets.
       + intros s. unfold tb; cbn [simplices]. split; [|tauto].
         intros Hs. split; [auto|apply pt_not_in_old; auto].
       + intros s Hs Hp. exfalso. exact (pt_not_in_old _ t s HI Hs Hp).
+  Qed.
+
+  Lemma sdiff_disjoint (a b : list simplex) : (forall x, In x a -> ~ In x b) -> sdiff a b = a.
+  Proof.
+    induction a as [|x a IH]; intros H; [reflexivity|]. unfold sdiff in *. cbn [filter].
+    assert (E : smem x b = false) by (apply smem_false; apply H; left; reflexivity).
+    rewrite E. cbn [negb]. f_equal. apply IH. intros y Hy. apply H. right; exact Hy.
+  Qed.
+
+  (* a point inserted inside the hull (located / hinted simplex): the reported
+     [del] is the cavity, and a facet with the new vertex is in at most as many
+     simplices as the ridge under it has faces of the cavity boundary *)
+  Lemma add_point_interior t p hint o t' del add :
+    Inv t -> WF t -> legal_op t (AddPoint p hint o) = true -> loc_of hint o <> [] ->
+    add_point d t p hint o = (t', Accepted del add) ->
+    forall g, In (nverts t) g -> cf g (simplices t') <= cf (nat_remove (nverts t) g) (hole_faces del).
+  Proof.
+    intros HI HW Hleg Hne E. unfold add_point in E. cbn [legal_op] in Hleg. fold (loc_of hint o) in *.
+    set (tb := mk (verts t ++ [p]) (simplices t) (v2s t ++ [[]])) in *.
+    assert (Htb : Inv tb) by (apply base_Inv; auto).
+    assert (HWb : WF tb) by (apply (@WF_same_simplices t); auto).
+    assert (Hnb : nverts tb = S (nverts t)).
+    { unfold nverts, tb; cbn [verts]. rewrite app_length. cbn [length]. lia. }
+    destruct (loc_of hint o) as [|l0 loc] eqn:Eloc; [congruence|].
+    assert (Hloc : In (l0 :: loc) (simplices t)) by (apply smem_In; exact Hleg).
+    destruct (o_reduce o) as [|r0 [|r1 red]] eqn:Er; [inversion E|inversion E|].
+    destruct (bowyer_watson d o (nverts t) tb (@cons simplex (l0 :: loc) nil)) as [[t2 bad] newt] eqn:Ebw.
+    inversion E; subst t' del add; clear E.
+    assert (Hold : forall s, In s (simplices tb) -> ~ In (nverts t) s).
+    { intros s Hs. apply pt_not_in_old; auto. }
+    assert (Hseed : forall s, In s [l0 :: loc] -> In s (simplices tb)).
+    { intros s [<-|[]]; exact Hloc. }
+    assert (Hpt : nverts t < nverts tb) by lia.
+    pose proof Ebw as Ebw'. apply bowyer_watson_spec in Ebw'; auto.
+    destruct Ebw' as [_ [_ [BA [_ [_ [_ BE]]]]]].
+    rewrite sdiff_disjoint.
+    - intros g Hg. apply (@bw_new_facets o (nverts t) tb [l0 :: loc] t2 bad newt); auto.
+    - intros x Hx Hc. apply BE in Hc as [_ Hc]. apply BA in Hx. exact (Hold x Hx Hc).
   Qed.
 
   (* the model's own hull property speaks about the same multiplicities *)
@@ -459,6 +615,24 @@ Section TriFacets.
       destruct (at_state P d vs ss h p hint o Hw Hl) as [HI Hleg]. fold t in HI, Hleg.
       unfold t'. destruct (add_point d t p hint o) as [t2 r] eqn:E. cbn [fst].
       eapply add_point_facets in E; eauto using reach_WF. destruct E as [[E1 E2] _]. split; auto.
+    Qed.
+    (* a point inserted inside the hull whose cavity boundary is a closed
+       pseudo-manifold (every ridge in at most two boundary faces -- what a
+       star-shaped cavity gives) keeps the hull property: EVERY facet is in at
+       most two simplices afterwards *)
+    Theorem closed_cavity_keeps_hull_property del add :
+      loc_of hint o <> [] ->
+      snd (add_point d t p hint o) = Accepted del add ->
+      broken_faces (all_faces (simplices t)) = false ->
+      (forall r, cf r (hole_faces del) <= 2) ->
+      broken_faces (all_faces (simplices t')) = false.
+    Proof.
+      intros Hne Hr Hb Hridge. destruct (at_state P d vs ss h p hint o Hw Hl) as [HI Hleg]. fold t in HI, Hleg.
+      apply broken_faces_false. intros g.
+      destruct (in_dec Nat.eq_dec (nverts t) g) as [Hin|Hin].
+      - unfold t'. destruct (add_point d t p hint o) as [t2 r] eqn:E. cbn [fst snd] in *. subst r.
+        eapply Nat.le_trans; [eapply add_point_interior; eauto using reach_WF|apply Hridge].
+      - apply old_facets_stay_le2; auto. apply broken_faces_false; exact Hb.
     Qed.
   End AtState.
 End TriFacets.
